@@ -8,6 +8,7 @@ import DSV.Model.Gc
 import DSV.Model.Occ
 import DSV.Model.Lock
 import DSV.Model.Create
+import DSV.Model.GcRun
 /-!
 Line-protocol driver: one request per line on stdin, one reply per line on stdout.
 First token selects the model function.  Imports only `DSV.Model.*` (core Lean), so it links natively.
@@ -663,6 +664,63 @@ def handleCreate (args : List String) : String :=
         | .error e => s!"fail step {i} {t}: {e}"
   go s0 0 steps
 
+/-! #### collector run -/
+open DSV.GcRun in
+def parseKey (t : String) : Option FileKey :=
+  if t.startsWith "d" then (t.drop 1).toString.toNat?.map fun n => (true, n)
+  else if t.startsWith "m" then (t.drop 1).toString.toNat?.map fun n => (false, n)
+  else none
+
+open DSV.GcRun in
+def showKey (k : FileKey) : String := (if k.1 then "d" else "m") ++ toString k.2
+
+def parseB (t : String) : Option Bool := if t = "1" then some true else if t = "0" then some false else none
+
+open DSV.GcRun in
+def parseMarker (t : String) : Option Marker :=
+  match t.splitOn "/" with
+  | [n, tg, st, p, d] => do
+      let name ← n.toNat?
+      let target ← parseKey tg
+      let stat ← if st = "x" then some none else (parseB st).map some
+      let pay ← parseB p
+      let del ← parseB d
+      pure ⟨name, target, stat, pay, del⟩
+  | _ => none
+
+open DSV.GcRun in
+def parseListed (t : String) : Option Listed :=
+  match t.splitOn "/" with
+  | [k, e, st, o, d] => do
+      let key ← parseKey k
+      let esc ← parseB e
+      let s1 ← parseB st
+      let old ← parseB o
+      let del ← parseB d
+      pure ⟨key, esc, s1, old, del⟩
+  | _ => none
+
+def parseOptList {α : Type} (f : String → Option α) (t : String) : Option (Option (List α)) :=
+  if t = "fail" then some none else if t = "-" then some (some []) else ((t.splitOn ",").mapM f).map some
+
+open DSV.GcRun in
+def handleGcRun (args : List String) : String :=
+  let kv := args.filterMap parseKv
+  let get (k : String) : String := (kv.find? (·.1 == k)).map (·.2) |>.getD ""
+  let fl := get "flags"
+  let flags : Flags := match fl.toList with
+    | [a, b, c, d] => ⟨a = '1', b = '1', c = '1', d = '1'⟩
+    | _ => fixed
+  match parseOptList parseB (get "reads"), parseOptList parseKey (get "reach"), parseOptList parseMarker (get "markers"),
+        parseOptList parseListed (get "data"), parseOptList parseListed (get "man") with
+  | some (some reads), some (some reach), some markers, some dl, some ml =>
+      let i : Input := { metaOk := get "meta" = "1", hintDangling := get "dangling" = "1", reachReads := reads, reachable := reach,
+                         markers := markers, dataListing := dl, manListing := ml }
+      match collect flags i with
+      | .returned d => "returned " ++ (if d.isEmpty then "-" else ",".intercalate (d.map showKey))
+      | .raised d => "raised " ++ (if d.isEmpty then "-" else ",".intercalate (d.map showKey))
+  | _, _, _, _, _ => "bad-op"
+
 def handle (line : String) : String :=
   match splitWs line with
   | [] => "bad-op"
@@ -672,6 +730,7 @@ def handle (line : String) : String :=
     else if cmd.startsWith "codec." then handleCodec cmd args
     else if cmd.startsWith "hint." then handleHint cmd args
     else if cmd.startsWith "meta." then handleMeta cmd args
+    else if cmd = "gc.run" then handleGcRun args
     else if cmd.startsWith "gc." then handleGc cmd args
     else if cmd = "occ.trace" then handleOcc args
     else if cmd = "create.trace" then handleCreate args
